@@ -691,6 +691,66 @@ fn lines_json(lines: &[String], sched: &str) -> Value {
     json!({"kind": "control-lines", "lines": lines, "schedule": sched})
 }
 
+/// a guest from C13's program generator (console output, port writes, sync crossings) through the real
+/// binary started with `-s -w`: lines received == "ready" + the messages of the in-process run
+pub fn judge_real_tcp(bin: &std::path::PathBuf, g: &super::c13::Guest, tag: &str) -> Result<Result<usize, String>, String> {
+    use crate::engine::realbin::*;
+    let (_, f) = super::c13::run_a(g, &format!("{}-ref", tag)).map_err(|e| format!("reference run failed: {}", e))?;
+    let out = match run_tcp(bin, tag, &g.file, &g.args, &[], Duration::from_secs(60)) {
+        Ok(o) => o,
+        Err(RealErr::Inconclusive(m)) => return Err(m),
+    };
+    if out.lines.first().map(|s| s.as_str()) != Some("ready") {
+        return Ok(Err(format!("real binary over TCP (-s -w): the first line is {:?}, not `ready`", out.lines.first())));
+    }
+    let got: Vec<String> = out.lines[1..].iter().map(|l| unescape(l)).collect();
+    if got != f.msgs {
+        let i = got.iter().zip(f.msgs.iter()).position(|(a, b)| a != b).unwrap_or(got.len().min(f.msgs.len()));
+        let what = if got.len() < f.msgs.len() && i == got.len() {
+            format!("the last {} of {} emitted messages were never transmitted (the connection closed first)", f.msgs.len() - got.len(), f.msgs.len())
+        } else {
+            format!("line {} is {:?}, message {} emitted by the program is {:?} ({} lines vs {} messages)", i + 1, got.get(i), i, f.msgs.get(i), got.len(), f.msgs.len())
+        };
+        return Ok(Err(format!("real binary over TCP: {}", what)));
+    }
+    Ok(Ok(f.msgs.len()))
+}
+
+fn real_phase(ctx: &Ctx, n: u32) -> Stats {
+    let Some(bin) = crate::engine::realbin::real_binary() else {
+        let mut st = Stats::new();
+        st.notes.push("real-binary phase skipped: H8VERIF_REALBIN is not set (run through ./check)".into());
+        return st;
+    };
+    par_shards(ctx, 16, |shard| {
+        let mut st = Stats::new();
+        let mut runner = proptest_runner(mix(ctx.seed, 0x18aa_0000 + shard as u64), 1);
+        let ent = entropy_n(500);
+        for i in 0..(n / 16) {
+            let raw = sample(&mut runner, &ent);
+            let mut g = super::c13::build_guest(&mut Ent::new(&raw));
+            g.start_total = 0;
+            let tag = format!("c18-{}-{}", shard, i);
+            match judge_real_tcp(&bin, &g, &tag) {
+                Ok(Ok(nm)) => {
+                    st.evaluations += 1;
+                    st.class("real binary over TCP: all emitted messages received, in order, before the connection closed");
+                    st.class_n("real binary over TCP: messages", nm as u64);
+                    if nm > 0 {
+                        st.nontrivial(key_hash(&g.file), || json!({"real_binary": true, "messages": nm, "features": g.features}));
+                    }
+                }
+                Ok(Err(m)) => {
+                    st.fail(Failure { signature: format!("real binary | {}", fail_field(&m.replace(|c: char| c.is_ascii_digit(), ""))), detail: m, case: json!({"kind": "real-tcp", "file": crate::engine::stepcase::hex(&g.file), "args": g.args, "fails": g.fails}) });
+                    break;
+                }
+                Err(m) => st.notes.push(format!("real-binary run inconclusive: {}", m)),
+            }
+        }
+        st
+    })
+}
+
 pub fn run(ctx: &Ctx) -> i32 {
     if let Some(v) = &ctx.replay {
         if let Some(code) = replay_fuzz(P, v) {
@@ -701,6 +761,31 @@ pub fn run(ctx: &Ctx) -> i32 {
         let r: Result<(), String> = if let Some(lines) = case.get("lines").and_then(|l| l.as_array()) {
             let lines: Vec<String> = lines.iter().filter_map(|x| x.as_str().map(|s| s.to_string())).collect();
             [Schedule::AllBefore, Schedule::Trickle, Schedule::Bursts].iter().try_for_each(|s| judge_lines(&lines, *s, 12345).map(|_| ())).and_then(|_| judge_tcp_lines(&lines, 777))
+        } else if case.get("kind").and_then(|k| k.as_str()) == Some("real-tcp") {
+            let (Some(file), Some(args)) = (case.get("file").and_then(|f| f.as_str()).and_then(crate::engine::stepcase::unhex), case.get("args").and_then(|a| a.as_str())) else { return 2 };
+            let g = super::c13::Guest { file, args: args.to_string(), fails: case.get("fails").and_then(|f| f.as_bool()).unwrap_or(false), features: vec![], start_total: 0 };
+            let Some(bin) = crate::engine::realbin::real_binary() else {
+                drop(quiet);
+                eprintln!("inconclusive: the real binary is not available (run through ./check)");
+                return 2;
+            };
+            // the loss is a race at process exit: try a few times
+            let mut r = Ok(());
+            for k in 0..20 {
+                match judge_real_tcp(&bin, &g, &format!("replay{}", k)) {
+                    Ok(Ok(_)) => {}
+                    Ok(Err(m)) => {
+                        r = Err(m);
+                        break;
+                    }
+                    Err(m) => {
+                        drop(quiet);
+                        eprintln!("inconclusive: {}", m);
+                        return 2;
+                    }
+                }
+            }
+            r
         } else if let Some(texts) = case.get("texts").and_then(|l| l.as_array()) {
             let texts: Vec<Vec<u8>> = texts.iter().filter_map(|x| x.as_str().and_then(crate::engine::stepcase::unhex)).collect();
             judge_framing(&texts).map(|_| ())
@@ -855,6 +940,9 @@ pub fn run(ctx: &Ctx) -> i32 {
         st
     });
     stats.merge(tstats);
+    // the repository's real binary over TCP (-s -w): every message the program emits up to its very last
+    // instruction must arrive as one line, in order, before the connection closes
+    stats.merge(real_phase(ctx, tier.pick(48, 1200)));
     drop(quiet);
     if tier == Tier::Thorough {
         fuzz_campaign(ctx, "fuzz_lines", 8, 40_000, 1024, &mut stats);
